@@ -57,7 +57,7 @@ let show_wres = function
   | Trials.WOk ws -> show_zlist ws | Trials.WErrEqual -> "ErrEqual" | Trials.WErrDiv -> "ErrDiv" | Trials.WErrIndex -> "ErrIndex"
 let () =
   (* (trials FLAT MODE (w0 ...)) ->
-     min_raw min_rounded (preambles) for_crossings trials weights common_preamble geometry0 (sizes_no_excl) *)
+     min_raw min_rounded (preambles) for_crossings trials weights common_preamble geometry0 (sizes_no_excl) wf_trials_b doc_need *)
   register "trials" (function [f; m; ws] ->
     let fb = Wire_flat.flat_of_sexp f in
     let mode = mode_of_sexp m in
@@ -68,7 +68,9 @@ let () =
     ^ show_opt show_nat (Trials.trials_for_crossings fb) ^ " " ^ show_opt show_z t ^ " "
     ^ (match t with Some tt -> show_wres (Trials.model_weights fb mode tt ws0) | None -> "none") ^ " "
     ^ show_opt show_nat (Trials.common_preamble fb) ^ " " ^ show_opt show_pairnn (Trials.model_geometry fb O) ^ " "
-    ^ show_natlist (Stdlib.List.map (Trials.crossing_size_no_excl fb) fb.Flat.fl_crossings)
+    ^ show_natlist (Stdlib.List.map (Trials.crossing_size_no_excl fb) fb.Flat.fl_crossings) ^ " "
+    ^ show_bool (TrialsWf.wf_trials_b fb) ^ " "
+    ^ show_nat (match fb.Flat.fl_alignment with Flat.PostPreamble -> TrialsWf.doc_need_post fb | _ -> TrialsWf.doc_need_own fb)
     | _ -> "!args");
   register "trreq" (function [f; fi; size] ->
     show_opt show_nat (Trials.trials_required (Wire_flat.flat_of_sexp f) (nat_of_sexp fi) (nat_of_sexp size)) | _ -> "!args");
